@@ -124,6 +124,23 @@ def _check_atten(v, ice, rng, lo, hi):
             sc = ice.attenuation_length(float(z[i]), float(f[j]))
             if v.check(np.ndim(sc) == 0, "attenuation scalar shape", ndim=int(np.ndim(sc))):
                 v.close("attenuation scalar == matrix entry", abs(float(sc) - M[i, j]) / M[i, j], 1e-12, z=float(z[i]), f=float(f[j]), scalar=float(sc), matrix=float(M[i, j]))
+    # integer-typed frequency / depth arrays denote the same frequencies / depths
+    fi = np.array([100000000, 300000000, 750000000, 1000000000, 2000000000], dtype=np.int64)
+    zi = np.array(sorted({int(x) for x in z}), dtype=np.int64)
+    zi = zi[(zi >= lo) & (zi <= hi)]
+    for zz_ in ([float(z[0])] + [float(x) for x in zi[:1]]):
+        want = np.asarray(ice.attenuation_length(zz_, fi.astype(float)), float)
+        got = np.asarray(ice.attenuation_length(zz_, fi), float)
+        if v.check(got.shape == want.shape, "attenuation row shape (integer frequencies)", shape=list(got.shape)):
+            v.close("attenuation for integer-typed frequencies == for the same frequencies as floats", float(np.max(np.abs(got - want) / want)), 1e-12, z=zz_, got=got[:3].tolist(), want=want[:3].tolist())
+    if len(zi) >= 2:
+        want = np.asarray(ice.attenuation_length(zi.astype(float), fi.astype(float)), float)
+        got = np.asarray(ice.attenuation_length(zi, fi), float)
+        if v.check(got.shape == want.shape, "attenuation matrix shape (integer depths and frequencies)", shape=list(got.shape)):
+            v.close("attenuation for integer-typed depths and frequencies == for the same values as floats", float(np.max(np.abs(got - want) / want)), 1e-12)
+        ni_f = np.asarray(ice.index(zi.astype(float)), float)
+        ni_i = np.asarray(ice.index(zi), float)
+        v.close("index of integer-typed depths == index of the same depths as floats", float(np.max(np.abs(ni_f - ni_i))), 1e-15)
     for j in range(5):
         col = np.asarray(ice.attenuation_length(z, float(f[j])))
         if v.check(col.shape == (3,), "attenuation column shape", shape=list(col.shape)):
